@@ -35,14 +35,14 @@ SEC_TAGS = ["name", "type", "id", "definition", "reference", "repository", "link
 PROP_TAGS = ["name", "id", "value", "type", "unit", "uncertainty", "definition", "dependency", "dependencyvalue", "reference",
              "value_origin", "val_cardinality", "section", "property", "foo", "Value"]
 TEXTS = {
-    "id": ["", "not-an-id", VID % 7, "5"],
+    "id": ["", "not-an-id", VID % 7, "5", "\u00b2" * 32],
     "date": ["", "2020-13-45", "x", "2020-01-02"],
-    "sec_cardinality": ["", "(a,b)", "x", "(2,1)", "(1,2)", "(-1,2)"],
+    "sec_cardinality": ["", "(a,b)", "x", "(2,1)", "(1,2)", "(-1,2)", "(\u00b2,3)", "(\u0663,\u0664)", "(1.0,2)", "(+1,2)", "( 1 , 2 )"],
     "prop_cardinality": ["", "(a,b)", "(1,2,3)", "(1,2)"],
     "val_cardinality": ["", "(a,b)", "()", "(0,1)"],
-    "value": ["", "x", "[1,x]", "[", "(1;2;3)", '["'],
+    "value": ["", "x", "[1,x]", "[", "(1;2;3)", '["', "[" + "a" * 140000 + ",b]", '["a,b]', "[a\nb]"],
     "type": ["", "int", "foo", "2-tuple", "string"],
-    "uncertainty": ["", "abc", "0.5"],
+    "uncertainty": ["", "abc", "0.5", "\u00b2", "1e999", "nan"],
     "link": ["", "nope", "/", ".."],
     "include": ["", "file:///nonexistent/f.xml#x", "not a url"],
     "name": ["", "n", "a/b"],
@@ -59,13 +59,20 @@ def judge_xml(text, is_file, scratch, label, fail, stats, seed_ids=None, mutated
     from odml.tools.parser_utils import ParserException, InvalidVersionException
     from odml.doc import BaseDocument
     data = text.encode("utf-8") if isinstance(text, str) else text
-    try:
-        root = ET.fromstring(data, ET.XMLParser(remove_comments=True))
-        wellformed = True
-    except ET.XMLSyntaxError:
-        root, wellformed = None, False
-    except Exception:
-        root, wellformed = None, False
+    def parse(b):
+        try:
+            return ET.fromstring(b, ET.XMLParser(remove_comments=True)), True
+        except ET.XMLSyntaxError:
+            return None, False
+        except Exception:
+            return None, False
+    root, wellformed = parse(data)
+    if not wellformed and not is_file and isinstance(text, str):
+        # for text that is already decoded the encoding named in an XML declaration has no meaning
+        import re
+        stripped = re.sub(r"^\s*<\?xml[^>]*\?>", "", text, count=1)
+        if stripped != text:
+            root, wellformed = parse(stripped.encode("utf-8"))
     odml_root = wellformed and root.tag == "odML"
     other_version = odml_root and "version" in root.attrib and root.attrib["version"] != "1.1"
     current = odml_root and root.attrib.get("version") == "1.1"
@@ -275,6 +282,11 @@ def grammar_docs(tier):
         "namespace-prefix": '<odML version="1.1" xmlns:x="urn:x"><x:section><name>a</name><type>t</type></x:section></odML>',
         "default-namespace": '<odML version="1.1" xmlns="urn:x">%s</odML>' % body,
         "xml-declaration": '<?xml version="1.0" encoding="UTF-8"?>\n' + frame % body,
+        "xml-declaration-truncated": '<?xml version="1.0" encoding="UTF-8"',
+        "xml-declaration-unterminated": '<?xml version="1.0" encoding="UTF-8" ' + frame % body,
+        "xml-declaration-only": '<?xml version="1.0" encoding="UTF-8"?>',
+        "xml-declaration-twice": '<?xml version="1.0" encoding="UTF-8"?><?xml version="1.0" encoding="UTF-8"?>' + frame % body,
+        "xml-declaration-unknown-encoding": '<?xml version="1.0" encoding="no-such-enc"?>' + frame % body,
         "xml-declaration-latin1": '<?xml version="1.0" encoding="ISO-8859-1"?>\n' + frame % body,
         "stylesheet-pi": '<?xml version="1.0"?>\n<?xml-stylesheet type="text/xsl" href="odml.xsl"?>\n' + frame % body,
         "text-in-root": frame % ("stray text" + body),
@@ -506,7 +518,7 @@ def dict_mutations():
 # --------------------------------------------------------------------------- cases
 
 def gen_cases(tier):
-    L = 5 if tier == "quick" else 6
+    L = 5 if tier == "quick" else 7
     cases = []
     # (a) strings: chunked by their first two letters
     for n in range(0, 3):
@@ -522,9 +534,10 @@ def gen_cases(tier):
         for i in range(0, n, 150):
             cases.append({"layer": "c", "seed": name, "slice": [i, i + 150], "pairs": False})
     if tier == "thorough":
-        n = len(mutations(seeds()[1][1]))
-        for i in range(0, n, 4):
-            cases.append({"layer": "c", "seed": "seed2", "slice": [i, i + 4], "pairs": True})
+        for name, text in seeds():
+            n = len(mutations(text))
+            for i in range(0, n, 4):
+                cases.append({"layer": "c", "seed": name, "slice": [i, i + 4], "pairs": True})
     d = dict_mutations()
     for i in range(0, len(d), 100):
         cases.append({"layer": "d", "slice": [i, i + 100]})
@@ -586,7 +599,7 @@ def _run(case, scratch):
                     second = mutations(mtext)
                 except Exception:
                     continue
-                for l2, t2, m2 in second[::7]:
+                for l2, t2, m2 in second[::(7 if case["seed"] != "seed2" else 2)]:
                     n_inputs += 1
                     judge_xml(t2, False, scratch, label + "+" + l2, fail, stats)
     elif case["layer"] == "d":
@@ -620,7 +633,7 @@ def check(tier):
     cases = gen_cases(tier)
     for c in cases:
         c["tier"] = tier
-    run.bounds = {"string_length": 5 if tier == "quick" else 6, "alphabet": ALPHABET, "grammar_documents": len(grammar_docs(tier)),
+    run.bounds = {"string_length": 5 if tier == "quick" else 7, "alphabet": ALPHABET, "grammar_documents": len(grammar_docs(tier)),
                   "mutations": {n: len(mutations(t)) for n, t in seeds()}, "dictionary_inputs": len(dict_mutations())}
     run.layer("cases", chunks=len(cases))
     par.run_cases(run, "checks.c16", cases, nchunks=par.JOBS * 16)
